@@ -5,6 +5,7 @@ import (
 	"bytes"
 	"encoding/json"
 	"fmt"
+	"hash/fnv"
 	"os"
 	"runtime"
 	"sort"
@@ -23,6 +24,7 @@ import (
 
 	"verif/internal/gx"
 	"verif/internal/ref"
+	"verif/internal/vet"
 	"verif/internal/vrt"
 )
 
@@ -143,6 +145,14 @@ func nontrivialBytes(c *vrt.Ctx, accepted bool, in []byte, deadAt int) {
 	}
 }
 
+// veteranCase: the veteran instances cost a history of calls each, so every fourth input (by
+// content) goes through them.
+func veteranCase(d []byte) bool {
+	h := fnv.New32a()
+	_, _ = h.Write(d)
+	return h.Sum32()%4 == 0
+}
+
 func runJSON(cs Case, c *vrt.Ctx) {
 	d := cs.Input
 	in := q(d)
@@ -170,6 +180,16 @@ func runJSON(cs Case, c *vrt.Ctx) {
 		_, err := p.ParseReader(iotest.OneByteReader(bytes.NewReader(cp())), func(gen.Node) bool { return false })
 		return err
 	})
+	if veteranCase(d) {
+		// instances that have been through failed and successful calls before (internal/vet)
+		c.Class("veteran-instances")
+		callErr(c, "oj.Parser(veteran).Parse", in, func() error { _, err := vet.OjParser().Parse(cp()); return err })
+		callErr(c, "oj.Parser(veteran).ParseReader", in, func() error { _, err := vet.OjParser().ParseReader(rd()); return err })
+		callErr(c, "gen.Parser(veteran).Parse", in, func() error { _, err := vet.GenParser().Parse(cp()); return err })
+		callErr(c, "gen.Parser(veteran).ParseReader", in, func() error { _, err := vet.GenParser().ParseReader(rd()); return err })
+		callErr(c, "oj.Tokenizer(veteran).Parse", in, func() error { return vet.OjTokenizer().Parse(cp(), &oj.ZeroHandler{}) })
+		callErr(c, "oj.Tokenizer(veteran).Load", in, func() error { return vet.OjTokenizer().Load(rd(), &oj.ZeroHandler{}) })
+	}
 	callMust(c, "oj.MustParse", in, func() { oj.MustParse(cp()) })
 	callErr(c, "oj.Match", in, func() error { return oj.Match(cp(), func(jp.Expr, any) {}, jp.R().D().C("a"), jp.R().W().N(1)) })
 	nontrivialBytes(c, acc, d, dead)
@@ -196,6 +216,13 @@ func runSEN(cs Case, c *vrt.Ctx) {
 		_, err := p.ParseReader(rd(), func(any) bool { return false })
 		return err
 	})
+	if veteranCase(d) {
+		c.Class("veteran-instances")
+		callErr(c, "sen.Parser(veteran).Parse", in, func() error { _, err := vet.SenParser().Parse(cp()); return err })
+		callErr(c, "sen.Parser(veteran).ParseReader", in, func() error { _, err := vet.SenParser().ParseReader(rd()); return err })
+		callErr(c, "sen.Tokenizer(veteran).Parse", in, func() error { return vet.SenTokenizer().Parse(cp(), &oj.ZeroHandler{}) })
+		callErr(c, "sen.Tokenizer(veteran).Load", in, func() error { return vet.SenTokenizer().Load(rd(), &oj.ZeroHandler{}) })
+	}
 	callErr(c, "sen.Tokenize", in, func() error { return sen.Tokenize(cp(), &oj.ZeroHandler{}) })
 	callErr(c, "sen.TokenizeLoad", in, func() error { return sen.TokenizeLoad(rd(), &oj.ZeroHandler{}) })
 	callMust(c, "sen.MustParse", in, func() { sen.MustParse(cp()) })
